@@ -10,6 +10,9 @@
 //!   the same repository without touching the cache, followed by ONE call of the real
 //!   `worker::fetch::cache_cobs` with the `RefUpdate`s computed from the actual ref diff
 //!   (token `f:<op>+<op>…`, `f!:` adds a `Skipped` update);
+//! * `x:<op>+<op>…`: the same foreign operations with NO cache write afterwards (the repository changes behind the
+//!   cache's back — not one of the property's operations; queries are printed but not judged for the objects
+//!   concerned until `write`, `write_all` or a fetched update rewrites their rows): exercises `write_all`;
 //! * `q`: run every query of the `Patches` / `Issues` traits on the cached store
 //!   (`Cache<_, StoreWriter>`) and on the direct path (`Cache<_, NoCache>`), for every identifier in the
 //!   pool (all ids occurring anywhere in any object so far + unknown ids).
@@ -20,7 +23,7 @@
 //! `e` other entry, `u` unknown id, `g` commit):
 //!   pc.S.N pd.S.N rev.S.P.N red.S.P.R cm.S.P.R cred.S.P.R.C rv.S.P.R.V rvc.S.P.W rvred.S.P.W
 //!   lc.S.P.(o|d|a) mg.S.P.R ed.S.P.N rm.S.P      ic.S.N icm.S.I icred.S.I.C ilc.S.I.(o|s|x) ied.S.I.N irm.S.I
-//!   w.P wa iw.I iwa q        (S = signer a|b|c; only `a` may appear outside `f:`)
+//!   w.P wa iw.I iwa q        (S = signer a|b|c; only `a` may appear outside `f:` / `x:`)
 //! Tokens starting with `@` are annotations: ignored on input, regenerated on output. They carry the
 //! graph of the opaque function "evaluate this object directly from the repository" at the points used
 //! (the abstract object after each operation), the ref updates handed to `cache_cobs`, and the id pool of
@@ -133,6 +136,10 @@ struct World {
     /// rewritten since (by cache_cobs, write or write_all). Derived from the script, not from the answers.
     stale_p: BTreeSet<String>,
     stale_i: BTreeSet<String>,
+    /// Names of objects changed in the repository behind the cache's back (`x:` tokens) whose row has not
+    /// been rewritten since: the cache is legitimately out of date for them, nothing is compared.
+    dirty_p: BTreeSet<String>,
+    dirty_i: BTreeSet<String>,
 }
 
 #[derive(Clone, Copy, PartialEq, Eq)]
@@ -184,6 +191,8 @@ impl World {
             viol: vec![],
             stale_p: BTreeSet::new(),
             stale_i: BTreeSet::new(),
+            dirty_p: BTreeSet::new(),
+            dirty_i: BTreeSet::new(),
         };
         assert_eq!(w.signers[0].public_key(), t._node.signer.public_key());
         for (i, (_, oid)) in w.commits.clone().iter().enumerate() {
@@ -699,10 +708,17 @@ impl World {
     /// difference explained by them alone is the known finding `stale-after-remove`; any other difference
     /// keeps the class of its query.
     fn cmp(&mut self, class: &str, what: &str, c: String, d: String, d_adj: String) -> String {
+        self.cmp_if(true, class, what, c, d, d_adj)
+    }
+
+    /// `judge = false`: the cache is legitimately out of date for the objects concerned (`x:`), print only.
+    fn cmp_if(&mut self, judge: bool, class: &str, what: &str, c: String, d: String, d_adj: String) -> String {
         if c == d {
             c
         } else {
-            if c == d_adj {
+            if !judge {
+                self.tags.insert("unjudged-while-dirty".into());
+            } else if c == d_adj {
                 self.viol.push(("stale-after-remove".to_string(), format!("{what}: cached={c} direct={d} (object removed locally, kept alive by another peer's reference)")));
             } else {
                 self.viol.push((class.to_string(), format!("{what}: cached={c} direct={d}")));
@@ -750,12 +766,12 @@ impl World {
             let c = show(catch(|| PQ::get(&pc, &id).map(|o| o.map(|p| jdigest(&p))).map_err(s)));
             let d = show(catch(|| PQ::get(&pd, &id).map(|o| o.map(|p| jdigest(&p))).map_err(s)));
             let adj = if self.stale_p.contains(n) { "-".to_string() } else { d.clone() };
-            let a = self.cmp("get-mismatch", &format!("patch get {n}"), c, d, adj);
+            let a = self.cmp_if(!self.dirty_p.contains(n), "get-mismatch", &format!("patch get {n}"), c, d, adj);
             g.push(format!("{n}={a}"));
             let c = show(catch(|| IQ::get(&ic, &id).map(|o| o.map(|p| jdigest(&p))).map_err(s)));
             let d = show(catch(|| IQ::get(&id_, &id).map(|o| o.map(|p| jdigest(&p))).map_err(s)));
             let adj = if self.stale_i.contains(n) { "-".to_string() } else { d.clone() };
-            let a = self.cmp("issue-get-mismatch", &format!("issue get {n}"), c, d, adj);
+            let a = self.cmp_if(!self.dirty_i.contains(n), "issue-get-mismatch", &format!("issue get {n}"), c, d, adj);
             ig.push(format!("{n}={a}"));
         }
         out.push(format!("G:{}", g.join(",")));
@@ -765,7 +781,7 @@ impl World {
         let d = catch(|| PQ::list(&pd).map_err(s).and_then(|it| it.collect::<Result<Vec<_>, _>>().map_err(s)));
         let (c, d) = (self.show_patches(c), self.show_patches(d));
         let adj = Self::without(&d, &self.stale_p);
-        let a = self.cmp("list-mismatch", "patch list", c, d, adj);
+        let a = self.cmp_if(self.dirty_p.is_empty(), "list-mismatch", "patch list", c, d, adj);
         out.push(format!("L:{a}"));
 
         // list by status
@@ -777,7 +793,7 @@ impl World {
                 self.tags.insert(format!("status-{name}-nonempty"));
             }
             let adj = Self::without(&d, &self.stale_p);
-            let a = self.cmp("list-by-status-mismatch", &format!("patch list_by_status {name}"), c, d, adj);
+            let a = self.cmp_if(self.dirty_p.is_empty(), "list-by-status-mismatch", &format!("patch list_by_status {name}"), c, d, adj);
             out.push(format!("S{name}:{a}"));
         }
 
@@ -806,7 +822,7 @@ impl World {
             }
             _ => d.clone(),
         };
-        let a = self.cmp("counts-mismatch", "patch counts", c, d, adj);
+        let a = self.cmp_if(self.dirty_p.is_empty(), "counts-mismatch", "patch counts", c, d, adj);
         out.push(format!("C:{a}"));
 
         // find by revision
@@ -832,7 +848,7 @@ impl World {
                 self.tags.insert("find-hit".into());
             }
             let adj = if self.stale_p.contains(d.split('/').next().unwrap_or("")) { "-".to_string() } else { d.clone() };
-            let a = self.cmp("find-by-revision-mismatch", &format!("find_by_revision {n}"), c, d, adj);
+            let a = self.cmp_if(self.dirty_p.is_empty(), "find-by-revision-mismatch", &format!("find_by_revision {n}"), c, d, adj);
             fb.push(format!("{n}={a}"));
         }
         out.push(format!("F:{}", fb.join(",")));
@@ -843,7 +859,7 @@ impl World {
         let d = catch(|| IQ::list(&id_).map_err(s).and_then(|it| it.collect::<Result<Vec<_>, _>>().map_err(s)));
         let (c, d) = (self.show_issues(c), self.show_issues(d));
         let adj = Self::without(&d, &self.stale_i);
-        let a = self.cmp("issue-list-mismatch", "issue list", c, d, adj);
+        let a = self.cmp_if(self.dirty_i.is_empty(), "issue-list-mismatch", "issue list", c, d, adj);
         out.push(format!("IL:{a}"));
         for (st, name) in [
             (issue::State::Open, "open"),
@@ -857,7 +873,7 @@ impl World {
                 self.tags.insert(format!("issue-status-{name}-nonempty"));
             }
             let adj = Self::without(&d, &self.stale_i);
-            let a = self.cmp("issue-list-by-status-mismatch", &format!("issue list_by_status {name}"), c, d, adj);
+            let a = self.cmp_if(self.dirty_i.is_empty(), "issue-list-by-status-mismatch", &format!("issue list_by_status {name}"), c, d, adj);
             out.push(format!("IS{name}:{a}"));
         }
         let showc = |r: Result<Result<issue::IssueCounts, String>, String>| match r {
@@ -881,7 +897,7 @@ impl World {
             }
             _ => d.clone(),
         };
-        let a = self.cmp("issue-counts-mismatch", "issue counts", c, d, adj);
+        let a = self.cmp_if(self.dirty_i.is_empty(), "issue-counts-mismatch", "issue counts", c, d, adj);
         out.push(format!("IC:{a}"));
 
         (pool.join(","), out.join("|"))
@@ -961,6 +977,7 @@ fn run_script(input: &str) -> (Outcome, String) {
                         w.tags.insert(if abs == "-" { "remove-last-ref".into() } else { "remove-object-survives".to_string() });
                         annotated.push(format!("@rm:{kc}:{n}={abs}"));
                         let (eq, cached_none, direct_some) = w.probe(kind, &id);
+                        if kind == Kind::Patch { w.dirty_p.remove(&n); } else { w.dirty_i.remove(&n); }
                         let stale = if kind == Kind::Patch { &mut w.stale_p } else { &mut w.stale_i };
                         stale.remove(&n);
                         if eq {
@@ -978,10 +995,43 @@ fn run_script(input: &str) -> (Outcome, String) {
                         let abs = w.abs_checked(kind, &id, if head == "pc" || head == "pd" || head == "ic" { "stale-after-create" } else { "stale-after-update" });
                         w.tags.insert(format!("ok-{head}"));
                         annotated.push(format!("@ok:{kc}:{n}={abs}"));
-                        if kind == Kind::Patch { w.stale_p.remove(&n); } else { w.stale_i.remove(&n); }
+                        if kind == Kind::Patch { w.stale_p.remove(&n); w.dirty_p.remove(&n); } else { w.stale_i.remove(&n); w.dirty_i.remove(&n); }
                     }
                 }
             }
+        } else if head == "x" {
+            // changes by other signers that NO cache write follows (not one of the property's operations)
+            let body = tok.split_once(':').map(|x| x.1).unwrap_or("");
+            let mut touched: Vec<(Kind, ObjectId)> = vec![];
+            for (j, sub) in body.split('+').enumerate() {
+                let sh = sub.split('.').next().unwrap_or("");
+                if !LOCAL_OPS.contains(&sh) {
+                    bad = true;
+                    continue;
+                }
+                match w.op(sub, &format!("{k}x{j}"), false) {
+                    Done::Failed(e) => {
+                        if e == "bad-signer" || e == "bad-arg" || e == "bad-op" {
+                            bad = true;
+                        }
+                        w.tags.insert(format!("external-fail-{sh}"));
+                    }
+                    Done::Touched(kind, id) => {
+                        w.tags.insert(format!("external-ok-{sh}"));
+                        if !touched.contains(&(kind, id)) {
+                            touched.push((kind, id));
+                        }
+                    }
+                }
+            }
+            let mut chg = vec![];
+            for (kind, id) in &touched {
+                let n = w.sym_of(&id.to_string());
+                let abs = w.abs(*kind, id);
+                chg.push(format!("{}{n}={abs}", if *kind == Kind::Patch { 'p' } else { 'i' }));
+                if *kind == Kind::Patch { w.dirty_p.insert(n); } else { w.dirty_i.insert(n); }
+            }
+            annotated.push(format!("@x:{}", if chg.is_empty() { "-".to_string() } else { chg.join("&") }));
         } else if head == "f" || head == "f!" {
             let body = tok.split_once(':').map(|x| x.1).unwrap_or("");
             let before = w.refs();
@@ -1029,7 +1079,7 @@ fn run_script(input: &str) -> (Outcome, String) {
                                 refs_ann.push(format!("{k}{sn}:{kc}"));
                                 w.tags.insert(format!("refupdate-{kc}"));
                                 // cache_cobs rewrites (or removes) this row
-                                if k == 'p' { w.stale_p.remove(&sn); } else { w.stale_i.remove(&sn); }
+                                if k == 'p' { w.stale_p.remove(&sn); w.dirty_p.remove(&sn); } else { w.stale_i.remove(&sn); w.dirty_i.remove(&sn); }
                             }
                         }
                     }
@@ -1087,7 +1137,7 @@ fn run_script(input: &str) -> (Outcome, String) {
                     };
                     w.tags.insert(if ok { "ok-write".into() } else { "fail-write".to_string() });
                     if ok {
-                        if head == "w" { w.stale_p.remove(name); } else { w.stale_i.remove(name); }
+                        if head == "w" { w.stale_p.remove(name); w.dirty_p.remove(name); } else { w.stale_i.remove(name); w.dirty_i.remove(name); }
                     }
                 }
             }
@@ -1106,7 +1156,7 @@ fn run_script(input: &str) -> (Outcome, String) {
             }
             w.tags.insert("ok-write-all".into());
             if ok {
-                if *tok == "wa" { w.stale_p.clear(); } else { w.stale_i.clear(); }
+                if *tok == "wa" { w.stale_p.clear(); w.dirty_p.clear(); } else { w.stale_i.clear(); w.dirty_i.clear(); }
             }
         } else if *tok == "q" {
             let (pool, out) = w.query();
@@ -1193,7 +1243,11 @@ impl Gen {
                     format!("rev.{sg}.{}.{}", p.name, rng.below(3))
                 }
                 3..=5 => {
-                    // redact (own revisions succeed; the root and foreign ones fail)
+                    // redact: mostly one of the signer's own non-root revisions (succeeds), sometimes any
+                    // (the root and foreign ones fail)
+                    let own: Vec<usize> = (1..p.revs.len()).filter(|i| p.revs[*i].author == s && !p.revs[*i].redacted).collect();
+                    let ri = if !own.is_empty() && !rng.chance(1, 5) { *rng.pick(&own) } else { ri };
+                    let r = &p.revs[ri];
                     self.patches[pi].revs[ri].redacted |= r.author == s && ri != 0;
                     format!("red.{sg}.{}.{}", p.name, r.name)
                 }
@@ -1255,33 +1309,60 @@ fn gen_case(rng: &mut Rng, max_ops: u64) -> String {
     let mut g = Gen { patches: vec![], issues: vec![] };
     let n = rng.range(6, max_ops);
     let mut toks: Vec<String> = vec![];
+    // the repository was changed behind the cache's back (`x:`) and not yet re-read with write_all
+    let mut dirty = false;
+    fn resync(toks: &mut Vec<String>, dirty: &mut bool) {
+        if *dirty {
+            toks.push("wa".into());
+            toks.push("iwa".into());
+            *dirty = false;
+        }
+    }
     while (toks.len() as u64) < n {
         let k = toks.len();
         let r = rng.below(100);
-        if r < 62 {
+        if r < 60 {
             let t = g.op(rng, 0, &k.to_string());
             toks.push(t);
-        } else if r < 84 {
+        } else if r < 82 {
             let m = rng.range(1, 3);
-            let subs: Vec<String> = (0..m).map(|j| {
-                let s = rng.range(1, 2) as usize;
-                g.op(rng, s, &format!("{k}x{j}"))
-            }).collect();
+            let subs: Vec<String> = (0..m)
+                .map(|j| {
+                    let s = rng.range(1, 2) as usize;
+                    g.op(rng, s, &format!("{k}x{j}"))
+                })
+                .collect();
             toks.push(format!("{}:{}", if rng.chance(1, 4) { "f!" } else { "f" }, subs.join("+")));
-        } else if r < 88 {
+        } else if r < 86 {
+            let m = rng.range(1, 2);
+            let subs: Vec<String> = (0..m)
+                .map(|j| {
+                    let s = rng.range(1, 2) as usize;
+                    g.op(rng, s, &format!("{k}x{j}"))
+                })
+                .collect();
+            toks.push(format!("x:{}", subs.join("+")));
+            dirty = true;
+        } else if r < 89 {
             toks.push(if rng.bool() { "wa".into() } else { "iwa".to_string() });
-        } else if r < 91 {
+        } else if r < 92 {
             if rng.bool() && !g.patches.is_empty() {
                 toks.push(format!("w.{}", rng.pick(&g.patches).name));
             } else if !g.issues.is_empty() {
                 toks.push(format!("iw.{}", rng.pick(&g.issues).name));
             } else {
+                resync(&mut toks, &mut dirty);
                 toks.push("q".into());
             }
         } else {
+            // mostly re-read everything before asking; sometimes ask while out of date (nothing is judged then)
+            if !rng.chance(1, 8) {
+                resync(&mut toks, &mut dirty);
+            }
             toks.push("q".into());
         }
     }
+    resync(&mut toks, &mut dirty);
     toks.push("q".into());
     toks.join(" ")
 }
@@ -1313,6 +1394,7 @@ fn main() {
         "one fresh real repository + write-through in-memory SQLite COB cache per case; random scripts of local operations \
          (create/draft/revision/redact/comment/review/lifecycle/merge/edit/remove/write/write_all on patches and issues), fetched \
          updates by two other signers applied through the real cache_cobs with the actual ref diff (created/updated/deleted/skipped), \
+         changes behind the cache's back followed by write_all, \
          and query points where every Patches/Issues query runs on Cache<_,StoreWriter> and Cache<_,NoCache> for every id occurring \
          anywhere in any object (patch, revision incl. redacted, comment, review, review comment, entry, commit, issue) + unknown ids; \
          non-trivial = at least one query point; distinct by script text",
